@@ -62,3 +62,79 @@ def bfs(init, ops, step, canon, max_depth, on_violation, clone=copy.deepcopy, ma
             frontier.append((nxt, h2))
     res.depth_complete = max_depth
     return res
+
+
+# ---------------------------------------------------------------------------------------------------
+# Level-synchronised parallel BFS for replay-based state spaces (states are histories).
+
+_CTX = {}
+
+
+def _expand_chunk(args):
+    import hashlib
+    name, hists = args
+    build, ops, step, canon, outcome = _CTX[name]
+    out = []
+    for hist in hists:
+        st = build(hist)
+        for op in ops(st, hist):
+            nxt = build(hist)
+            bad = step(nxt, op)
+            oc = outcome(nxt, op) if outcome else None
+            if bad is not None:
+                out.append((hist + (op,), None, bad, oc))
+            else:
+                key = hashlib.blake2b(repr(canon(nxt)).encode(), digest_size=16).digest()
+                out.append((hist + (op,), key, None, oc))
+    return out
+
+
+def pbfs(name, build, ops, step, canon, max_depth, on_violation, outcome=None, workers=None,
+         sample_every=0, roots=((),)):
+    """build(hist) -> fresh state reached by replaying hist on the real implementation.
+    ops(state, hist) -> operations enabled; step(state, op) -> None | (kind, what).
+    Deduplication on a 128-bit hash of repr(canon(state)).  Exhaustive up to max_depth."""
+    import hashlib
+    import multiprocessing as mp
+    import os
+    res = Result()
+    _CTX[name] = (build, ops, step, canon, outcome)
+    workers = workers or min(16, os.cpu_count() or 1)
+    seen = set()
+    frontier = []
+    for r in roots:
+        k = hashlib.blake2b(repr(canon(build(r))).encode(), digest_size=16).digest()
+        if k not in seen:
+            seen.add(k)
+            frontier.append(tuple(r))
+    res.states = len(frontier)
+    ctx = mp.get_context("fork")
+    with ctx.Pool(workers) as pool:
+        depth = 0
+        while frontier and depth < max_depth:
+            frontier.sort(key=repr)                      # deterministic work order
+            n = max(1, min(64, len(frontier) // (workers * 4) + 1))
+            chunks = [(name, frontier[i:i + n]) for i in range(0, len(frontier), n)]
+            nxt_frontier = []
+            for part in pool.imap(_expand_chunk, chunks):
+                for h2, key, bad, oc in part:
+                    res.transitions += 1
+                    if oc is not None:
+                        res.outcomes[oc] += 1
+                    if bad is not None:
+                        on_violation(bad[0], bad[1], h2)
+                        continue
+                    if key in seen:
+                        continue
+                    seen.add(key)
+                    res.states += 1
+                    if sample_every and res.states % sample_every == 0 and len(res.samples) < 6:
+                        res.samples.append([repr(o) for o in h2])
+                    nxt_frontier.append(h2)
+            depth += 1
+            if nxt_frontier:
+                res.max_depth = depth
+            frontier = nxt_frontier
+    res.depth_complete = max_depth
+    del _CTX[name]
+    return res
